@@ -21,7 +21,7 @@ VEC_RULE = ("random operation histories over a pool of 4 same-typed vectors + 2 
             "(default construction, destruction) are not counted. ")
 
 
-def _with_sets(prop, tier, flat=True, small_space=True, small_hist=True):
+def _with_sets(prop, tier, flat=True, small_space=True, small_hist=True, nested=False):
     """vector histories + the set engines, for the properties whose quantifier covers vectors and sets"""
     cov, viols, inc = vec.run(prop, tier)
     if flat:
@@ -34,12 +34,16 @@ def _with_sets(prop, tier, flat=True, small_space=True, small_hist=True):
         cfgs = sets.SS_HIST_QUICK + (sets.SS_HIST_THOROUGH if tier == "thorough" else [])
         c4, v4, i4 = sets.run_engine(prop, tier, cfgs, 200, 3000, ops=80, crash_owners=("C04", "C11", "C02"))
         cov, viols, inc = sets.merge_cov(cov, c4), viols + v4, inc + i4
+    if nested:
+        ncfgs = sets.NESTED_QUICK + (sets.NESTED_THOROUGH if tier == "thorough" else [])
+        c5, v5, i5 = sets.run_engine(prop, tier, ncfgs, 150, 1500, ops=60, crash_owners=("C14", "C02"))
+        cov, viols, inc = sets.merge_cov(cov, c5), viols + v5, inc + i5
     return cov, viols, inc
 
 
 def c02(tier):
     t0 = time.time()
-    cov, viols, inc = _with_sets("C02", tier)
+    cov, viols, inc = _with_sets("C02", tier, nested=True)
     cov["rule"] = VEC_RULE + ("The same for FlatSet pools and SmallSet pools (random histories and the complete small-scope SmallSet state space). "
                               "Judge: element ledger (identity, lifetime, moved-from flag, self pointer of non relocatable elements, self move-assignment "
                               "in the vector engines) evaluated after every call and at the end of every history, plus ASan/UBSan/LSan.")
@@ -301,6 +305,12 @@ def c14(tier):
                 x["key"] = "after-relocation:" + x["key"]
                 x["detail"] = "history passes without relocations, fails with them: " + str(x.get("detail"))
                 viols.append(x)
+    # containers as elements of containers: the outer vector relocates the inner ones according to their own declaration
+    ncfgs = sets.NESTED_QUICK + (sets.NESTED_THOROUGH if tier == "thorough" else [])
+    nc, nv_, ni = sets.run_engine("C14", tier, ncfgs, 150, 1500, ops=60, crash_owners=("C14", "C02"), any_prop=True)
+    cov = sets.merge_cov(cov, nc)
+    viols += nv_
+    inc += ni
     # the static side: no container claims the trait when a part is not relocatable (rows of the C17 probe about relocatability)
     c17cov, c17v, c17i = c17.run(tier)
     for x in c17v:
@@ -325,7 +335,7 @@ def c20_check(tier):
 
 def all_quick_specs():
     cfgs = (list(vec.QUICK) + sets.FS_QUICK + sets.SS_SPACE_QUICK + sets.SS_HIST_QUICK + sets.HG_QUICK + sets.COST_QUICK + vec.GROWTH_QUICK +
-            vec.ALIAS_QUICK + vec.LIMITS_QUICK + vec.FAULT_QUICK + sets.SETFAULT_QUICK + vec.SWAP2_QUICK + sets.ALGO_QUICK + sets.REALLOC_DIRECT)
+            vec.ALIAS_QUICK + vec.LIMITS_QUICK + vec.FAULT_QUICK + sets.SETFAULT_QUICK + vec.SWAP2_QUICK + sets.ALGO_QUICK + sets.REALLOC_DIRECT + sets.NESTED_QUICK)
     return [c.spec() for c in cfgs]
 
 
@@ -341,7 +351,7 @@ def setup():
 
 def all_thorough_specs():
     cfgs = (vec.THOROUGH_EXTRA + sets.FS_THOROUGH + sets.SS_SPACE_THOROUGH + sets.SS_HIST_THOROUGH + sets.HG_THOROUGH + sets.COST_THOROUGH + vec.GROWTH_THOROUGH +
-            vec.ALIAS_THOROUGH + vec.LIMITS_THOROUGH + vec.FAULT_THOROUGH + sets.SETFAULT_THOROUGH + vec.SWAP2_THOROUGH + sets.ALGO_THOROUGH)
+            vec.ALIAS_THOROUGH + vec.LIMITS_THOROUGH + vec.FAULT_THOROUGH + sets.SETFAULT_THOROUGH + vec.SWAP2_THOROUGH + sets.ALGO_THOROUGH + sets.NESTED_THOROUGH)
     return [c.spec() for c in cfgs] + [c16.spec(b) for b in c16.matrix("thorough")] + [c20.spec("clang++-14")]
 
 
